@@ -15,7 +15,7 @@ _hc._MAXHEADERS = 1 << 20
 
 METHODS = ['GET', 'GET', 'GET', 'POST', 'POST', 'PUT', 'DELETE']          # no HEAD: HEAD framing is C15's business
 TARGETS = ['/', '/', '/echo', '/echo?x=1&y=two', '/echo/a/b', '/missing', '/a/b/c?q=%41', '/echo?1,2',
-           'http://example.org/echo', '/boom', '/%7Eecho', '/echo;p=1', '/reflect']
+           'http://example.org/echo', '/boom', '/%7Eecho', '/echo;p=1', '/reflect', '/badhdr']
 VERSIONS = ['HTTP/1.1', 'HTTP/1.1', 'HTTP/1.1', 'HTTP/1.0']
 HEADERS = [
     'Accept: */*', 'User-Agent: c14/1.0 (x; y)', 'Cookie: sid=abc123; theme=dark', 'Connection: keep-alive',
@@ -92,7 +92,7 @@ BAD_CHUNK = [b'ZZ', b'-1', b'', b' ', b'0x5', b'FFFFFFFFFFFFFFFFFF', b'5 5', b'+
 BAD_TE = [b'gzip', b'chunked, gzip', b'CHUNKED', b'xchunked', b'chunked\x00', b'', b'identity', b' chunked ']
 BAD_CE = [b'gzip', b'deflate', b'br', b'GZIP']
 COOKIES = [b'a=b; \x01=\x02;;;=', b'=', b'a="unterminated', b'a=b\\r\\nSet-Cookie: x=y', b'\xff=\xfe', b'a=' + b'v' * 5000, b'expires=1; path=2',
-           b'a=b; $Version=1', b'\\u20ac=1', b'a=\\u20ac']
+           b'a=b; $Version=1', b'\\u20ac=1', b'a=\\u20ac', b'a="\\u20ac"', b'a="\\xe9\\xff"', b'a="\\U0001F600"; b=c', b'a="b\\r\\nX y"']
 TOKENS = [b'\r\n', b'\r', b'\n', b' ', b':', b'\\', b'%', b'\t', b'\x7f', b'\x0b', b'\r\n\r\n', b'\x00\x00', b'\\x', b'#', b'\r\n ']
 TLS = [
     b'\x16\x03\x01\x02\x00\x01\x00\x01\xfc\x03\x03' + bytes(range(40)),      # TLS 1.0 record, 1.2 hello
